@@ -80,6 +80,14 @@ class Check:
             else:
                 raise MachineryFailure(f"TLC run {name} failed:\n{res.tail(60)}")
 
+    def action_coverage(self, name, res, expect):
+        """vacuity guard: every named action of a state machine must have been taken (TLC -coverage 1)"""
+        cov = {a: res.coverage.get(a, (0, 0)) for a in expect}
+        never = [a for a, (d, g) in cov.items() if g == 0]
+        self.part("action_coverage", **{name: {a: g for a, (d, g) in cov.items()}})
+        if never:
+            raise MachineryFailure(f"{name}: actions never taken in the explored model (vacuous): {never}")
+
     def sample(self, x, limit=6):
         if len(self.cov["samples"]) < limit:
             self.cov["samples"].append(x)
